@@ -698,6 +698,99 @@ func background(c *common.Ctx, r *common.Rand, kind string) error {
 	return nil
 }
 
+// emptyThenWrite: the service holds the database; a new primary's application opens the database (an empty file, no
+// transaction yet) while the store's own backup stream is running, then commits. The primary's first transaction
+// cannot be placed on the service's chain, so the primary has to adopt the service's copy - and go on working.
+func emptyThenWrite(c *common.Ctx, r *common.Rand, kind string) error {
+	dir, err := os.MkdirTemp(c.OutDir, "c14e-")
+	if err != nil {
+		return err
+	}
+	defer os.RemoveAll(dir)
+	e := &env{c: c, r: r, kind: kind, svcDir: filepath.Join(dir, "svc")}
+	_ = os.MkdirAll(e.svcDir, 0o755)
+	e.fc = litefs.NewFileBackupClient(e.svcDir)
+	_ = e.fc.Open()
+	if kind == "lfsc" {
+		cl, err := newCloud(e.svcDir)
+		if err != nil {
+			return err
+		}
+		e.cloud = cl
+		defer cl.srv.Close()
+	}
+	p1, err := e.newPrimary(filepath.Join(dir, "p1"))
+	if err != nil {
+		return err
+	}
+	if err := p1.commit(3); err != nil {
+		p1.node.Close()
+		return err
+	}
+	if err := p1.node.Store.SyncBackup(bg); err != nil {
+		p1.node.Close()
+		return fmt.Errorf("first primary's sync: %v", err)
+	}
+	p1.node.Close()
+	sp := e.svcPos()
+	p2, err := e.newPrimaryDelay(filepath.Join(dir, "p2"), 10*time.Millisecond)
+	if err != nil {
+		return err
+	}
+	defer p2.node.Close()
+	rep := map[string]any{"kind": "backup-empty-then-write", "client": kind}
+	key := "C14:" + kind + ":empty-then-write"
+	// the application opens the database: an empty file
+	if _, f, err := p2.node.Store.CreateDB("db"); err == nil {
+		_ = f.Close()
+	}
+	p2.h = hist.NewOn(e.c, e.r.Fork(), hist.Config{PageSize: 512}, p2.node.Store, p2.node.Exits, "db", nil, 0, false)
+	time.Sleep(1500 * time.Millisecond) // at least one pass of the backup stream sees the empty database
+	c.Evaluations++
+	c.Distinct(kind + ":empty-then-write")
+	if p2.pos() == sp {
+		// adopted before any local write: equally fine
+		c.Count("empty_then_write_adopted_early", 1)
+	} else {
+		lfs.BusyTimeout = 300 * time.Millisecond
+		rep["first_commit"] = fmt.Sprint(p2.commit(1)) // may be refused if the restore holds the write lock at that moment
+		lfs.BusyTimeout = 3 * time.Second
+	}
+	deadline := time.Now().Add(10 * time.Second)
+	for time.Now().Before(deadline) {
+		if lp := p2.pos(); lp.txid >= sp.txid && e.svcPos() == lp {
+			break
+		}
+		time.Sleep(10 * time.Millisecond)
+	}
+	lp, sv := p2.pos(), e.svcPos()
+	if ok, why, _ := e.svcChain(); !ok {
+		c.Violate(key+":chain", "the service no longer holds one gap-free chain: "+why, rep)
+		return nil
+	}
+	if sv.txid < sp.txid {
+		c.Violate(key+":overwritten", fmt.Sprintf("the service went from %v back to %v", sp, sv), rep)
+		return nil
+	}
+	if lp != sv {
+		c.Violate(key+":not-adopted", fmt.Sprintf("10s after its first transaction could not be placed on the service's chain the primary is at %v and the service at %v: it neither adopted the service's copy nor caught up", lp, sv), rep)
+		return nil
+	}
+	// the database is usable
+	img, err := lfs.ReadImage(filepath.Join(p2.dir, "dbs", "db"))
+	if err != nil {
+		return err
+	}
+	p2.h = hist.NewOn(e.c, e.r.Fork(), hist.Config{PageSize: 512}, p2.node.Store, p2.node.Exits, "db", img, lp.txid, false)
+	lfs.BusyTimeout = 1500 * time.Millisecond
+	werr := p2.commit(1)
+	lfs.BusyTimeout = 3 * time.Second
+	if werr != nil {
+		c.Violate(key+":wedged", fmt.Sprintf("after adopting the service's copy the primary cannot commit: %v", werr), rep)
+	}
+	return nil
+}
+
 func Run(c *common.Ctx) error {
 	cf := c.Cases("cases_c14", "Require Import LF.Model.Repl LF.Model.Backup.\nLocal Open Scope N_scope.", "bool * pos * list (N * N * N * N) * pos * N * list N", "mismatches_backup")
 	cf.Shard = 12
@@ -721,6 +814,11 @@ func Run(c *common.Ctx) error {
 		}
 		if err := background(c, c.Rng.Fork(), kind); err != nil {
 			return fmt.Errorf("%s/background: %w", kind, err)
+		}
+	}
+	for _, kind := range []string{"file", "lfsc"} {
+		if err := emptyThenWrite(c, c.Rng.Fork(), kind); err != nil {
+			return fmt.Errorf("%s/empty-then-write: %w", kind, err)
 		}
 	}
 	return nil
